@@ -173,7 +173,7 @@ def shard_fn(shard, nshards, seed, tier, exe, nhist):
 def run(tier, seed):
     bdir = build.build("asan")
     chk = core.Check(PID, tier, seed)
-    sh = core.parallel(shard_fn, seed=seed, tier=tier, exe=bdir + "/jcdrv", nhist=16000 if tier == "quick" else 1000000)
+    sh = core.parallel(shard_fn, seed=seed, tier=tier, exe=bdir + "/jcdrv", nhist=64000 if tier == "quick" else 1000000)
     chk.absorb(sh)
     chk.rule = ("random histories (10-60 ops) of printbuf_memappend / memappend_fast / strappend / memset / sprintbuf / reset with sizes chosen relative to the CURRENT capacity "
                 "(size-bpos-3..+9, so every doubling boundary and the exact-fill cases are hit), absolute sizes up to 70000, memset offsets -1/absolute/bpos+d/size+d, and must-refuse arguments "
